@@ -167,6 +167,11 @@ theorem funexpected_safe' {α : Type} {st : FState} {tok : Item} {Q : α → FSt
   FSafe.lift (unexpected_safe' ht hv)
 
 omit hz in
+theorem funexpected_textStart_safe {α : Type} {st : FState} {tok : Item} {Q : α → FState → Prop}
+    (ht : S tok) (hv : EL.lex → valid tok) : FSafe AP EL S (FileParser.unexpected (atTextStart tok) : FP α) st Q :=
+  FSafe.lift (unexpected_textStart_safe ht hv)
+
+omit hz in
 /-- `t.errorfAt(pos, …)`: an error at a position the caller vouches for -/
 theorem ferrorfAt_safe {α : Type} {st : FState} {pos : Nat} {Q : α → FState → Prop} (hp : VPos EL S pos) :
     FSafe AP EL S (FileParser.errorfAt pos : FP α) st Q := hp
